@@ -30,11 +30,14 @@ def oraclize(qf: QlassF, element: Any, name="oracle"):
     """Transform a QlassF qf and an element to an oracle {f(x) = x == element}"""
     argt_name = type_repr(qf.args[0].ttype)
 
-    if qf.name == name:
-        qf.name = f"_{name}"
+    # The wrapped function is called under another name if it is called like the
+    # oracle itself; the caller's object is left untouched
+    lf = qf.to_logicfun()
+    inner_name = lf[0] if lf[0] != name else f"_{name}"
+    lf = (inner_name, lf[1], lf[2], lf[3])
 
-    fs = f"def {name}(v: {argt_name}) -> bool:\n   return {qf.name}(v) == {element}"
-    oracle = QlassF.from_function(fs, defs=[qf.to_logicfun()])
+    fs = f"def {name}(v: {argt_name}) -> bool:\n   return {inner_name}(v) == {element}"
+    oracle = QlassF.from_function(fs, defs=[lf])
 
     if (
         len(oracle.expressions) == 1
